@@ -2321,6 +2321,9 @@ class InventoryPreviewTree(PreviewTree, inventorytree.InventoryTree):
         possible_extras.update(self._transform._new_contents)
         possible_extras.update(self._transform._removed_id)
         for trans_id in possible_extras:
+            if self._transform.final_kind(trans_id) is None:
+                # nothing is left at this path, so there is nothing extra
+                continue
             if self._transform.final_file_id(trans_id) is None:
                 yield self._final_paths._determine_path(trans_id)
 
